@@ -170,7 +170,7 @@ COMMON_ASSUME = [
 _sub_cache = {}
 
 
-def import_rules(rep, modname, rules, prefix=None):
+def import_rules(rep, modname, rules, prefix=None, key_prefixes=None):
     """Run another property's rule module on a scratch report (once per process) and copy the instances of the named rules
     into `rep` (same keys, so a violation is reported under this property as well)."""
     import importlib
@@ -182,6 +182,8 @@ def import_rules(rep, modname, rules, prefix=None):
     sub = _sub_cache[key]
     n = 0
     for i in sub.instances:
+        if key_prefixes is not None and i.rule != "INTERNAL" and not i.key.startswith(tuple(key_prefixes)):
+            continue
         if i.rule in rules or (i.rule == "INTERNAL"):
             rep.instances.append(Instance(i.rule, i.key, i.site, i.what, i.status, i.detail))
             n += 1
